@@ -55,6 +55,10 @@ func (i *Ignore) load(rootGoitPath string) error {
 		}
 		i.paths = append(i.paths, replacedText)
 	}
+	// a read error must not silently shorten the ignore list
+	if err := scanner.Err(); err != nil {
+		return fmt.Errorf("fail to read %s: %w", goitignorePath, err)
+	}
 
 	return nil
 }
